@@ -8,7 +8,78 @@ import (
 	"pgregory.net/rapid"
 )
 
-const c07Rule = "fault enumeration: each rapid-generated history (5-30 ops over SetItem/Set/Delete/Get/GetItem/Min/Max/GetTotals/Exist/Len/visits/evict/Flush/re-open/FlushRevert/CopyTo/block+random visits) is run fault-free to count the N StoreFile calls gkvlite issues, then re-executed once for EVERY k in 1..N with call k failing (reads, Stat, Truncate: outright; writes: outright and after 1 byte, half, all-but-one byte), on the store's file and on CopyTo's destination. Oracle per execution: the API call in progress returns an error (never nil, never a panic/hang); visible contents == model before the call; a copy of the file re-opens to the last flush; the failed call is retried and the rest of the history plus a churn phase must behave exactly as the fault-free run. evaluations = faulted executions; non-trivial = the fault hit a mutation/Flush/open/FlushRevert/CopyTo (not a pure lookup) with >=3 ops still to run; distinct by (history hash, k, torn)."
+const c07Rule = "fault enumeration: each rapid-generated history (5-30 ops over SetItem/Set/Delete/Get/GetItem/Min/Max/GetTotals/Exist/Len/visits/evict/Flush/re-open/FlushRevert/CopyTo/block+random visits) is run fault-free to count the N StoreFile calls gkvlite issues, then re-executed once for EVERY k in 1..N with call k failing (reads, Stat, Truncate: outright; writes: outright and after 1 byte, half, all-but-one byte; thorough tier: every length of writes up to 64 bytes), on the store's file and on CopyTo's destination, each in a 'retry the failed call' and an 'abandon the failed call' variant. Oracle per execution: the API call in progress returns an error (never nil, never a panic/hang); visible contents == model before the call; a copy of the file re-opens to the last flush; the rest of the history plus a churn phase must behave exactly as the fault-free run. evaluations = faulted executions; non-trivial = the fault hit a mutation/Flush/open/FlushRevert/CopyTo (not a pure lookup) with >=3 ops still to run; distinct by (history hash, k, torn, variant)."
+
+// faultRunner executes one faulted case and returns the violation (if any),
+// the events and the plan (to see where the fault fired).
+type faultRunner func(fc Case) (*Violation, map[string]int, *FaultPlan)
+
+// faultEnumerate runs the complete single-fault enumeration of one history.
+func faultEnumerate(rt *rapid.T, st *Stats, prop string, c Case, run faultRunner) {
+	thorough := os.Getenv("VERIF_TIER") == "thorough"
+	var n int
+	var kinds []IOKind
+	var lens []int
+	v, _ := guarded(prop, c, func() (*Violation, map[string]int) {
+		v, cnt, ks, ls, ev := faultFreeCount(c, faultOptsFor(prop))
+		n, kinds, lens = cnt, ks, ls
+		return v, ev
+	})
+	if v != nil {
+		if prop == "C17" {
+			return // judged by the differential of the main C17 phase
+		}
+		v.Sig = "faultfree:" + v.Sig
+		p := saveFailure(prop, c, v)
+		rt.Fatalf("VIOLATION-CANDIDATE property=%s sig=%q case=%s\n%s\ncase: %s", prop, v.Sig, p, v.Error(), c.String())
+	}
+	base := c.Hash()
+	for k := 1; k <= n; k++ {
+		torns := []int{0}
+		if kinds[k-1] == IOWrite {
+			torns = tornModes(lens[k-1], thorough)
+		}
+		for ti, torn := range torns {
+			for abandon := 0; abandon <= 1; abandon++ {
+				if abandon == 1 && ti > 1 {
+					continue // the abandon variant is run for the outright and the first torn failure only
+				}
+				fc := c
+				fc.Cfg.FailAt, fc.Cfg.Torn = k, torn
+				fc.Cfg.Extra = []int{abandon}
+				var plan *FaultPlan
+				v, ev := guarded(prop, fc, func() (*Violation, map[string]int) {
+					v, ev, p := run(fc)
+					plan = p
+					return v, ev
+				})
+				if v != nil {
+					p := saveFailure(prop, fc, v)
+					rt.Fatalf("VIOLATION-CANDIDATE property=%s sig=%q case=%s\n%s\ncase: %s", prop, v.Sig, p, v.Error(), fc.String())
+				}
+				if plan != nil && !plan.Fired {
+					p := saveFailure(prop, fc, &Violation{Prop: prop, Sig: "harness-nondeterminism"})
+					rt.Fatalf("harness: call %d of %d never happened in the faulted re-execution (case %s)", k, n, p)
+				}
+				nontrivial := false
+				if plan != nil && plan.FiredOp >= 0 && plan.FiredOp < len(fc.Ops) {
+					switch fc.Ops[plan.FiredOp].K {
+					case OpSet, OpSetR, OpDel, OpFlush, OpReopen, OpRevert, OpCopyTo:
+						nontrivial = len(fc.Ops)-plan.FiredOp > 3
+					case OpVisit:
+						nontrivial = prop == "C18"
+					}
+					ev["fault_kind_"+kinds[k-1].String()]++
+					if torn > 0 {
+						ev["fault_torn_write"]++
+					}
+				}
+				h := base ^ (uint64(k)*0x9E3779B97F4A7C15 + uint64(torn)*0xC2B2AE3D27D4EB4F + uint64(abandon)*0x165667B19E3779F9)
+				st.Note(h, ev, nontrivial, func() string { return fc.String() })
+			}
+		}
+	}
+}
 
 func TestC07(t *testing.T) {
 	st := NewStats("C07", c07Rule, append(append([]string{}, commonAssumptions...),
@@ -16,75 +87,36 @@ func TestC07(t *testing.T) {
 		"partial delivery of a visit before the failing read is not judged, only the returned error",
 		"exactly one fault per execution (single-fault enumeration)"))
 	st.Extra["counts_units"] = "evaluations are faulted executions; -rapid.checks counts histories"
+	histories := 0
 	defer func() {
+		st.Extra["histories"] = fmt.Sprint(histories)
 		if p := outPath(); p != "" {
 			st.Write(p)
 		}
 	}()
 	gen := GenCase(profFault)
-	histories := 0
 	rapid.Check(t, func(rt *rapid.T) {
 		c := gen.Draw(rt, "case")
 		c.Cfg.Mem = false
 		histories++
-		var n int
-		var kinds []IOKind
-		var lens []int
-		v, _ := guarded("C07", c, func() (*Violation, map[string]int) {
-			v, cnt, ks, ls, ev := faultFreeCount(c)
-			n, kinds, lens = cnt, ks, ls
-			return v, ev
-		})
-		if v != nil {
-			v.Sig = "faultfree:" + v.Sig
-			p := saveFailure("C07", c, v)
-			rt.Fatalf("VIOLATION-CANDIDATE property=C07 sig=%q case=%s\n%s\ncase: %s", v.Sig, p, v.Error(), c.String())
-		}
-		base := c.Hash()
-		for k := 1; k <= n; k++ {
-			torns := []int{0}
-			if kinds[k-1] == IOWrite {
-				torns = tornModes(lens[k-1], os.Getenv("VERIF_TIER") == "thorough")
-			}
-			for ti, torn := range torns {
-				for abandon := 0; abandon <= 1; abandon++ {
-					if abandon == 1 && ti > 1 {
-						continue // the abandon variant is run for the outright and the 1-byte failure only
-					}
-					fc := c
-					fc.Cfg.FailAt, fc.Cfg.Torn = k, torn
-					fc.Cfg.Extra = []int{abandon}
-					var plan *FaultPlan
-					v, ev := guarded("C07", fc, func() (*Violation, map[string]int) {
-						v, ev, p := RunFault(fc)
-						plan = p
-						return v, ev
-					})
-					if v != nil {
-						p := saveFailure("C07", fc, v)
-						rt.Fatalf("VIOLATION-CANDIDATE property=C07 sig=%q case=%s\n%s\ncase: %s", v.Sig, p, v.Error(), fc.String())
-					}
-					if !plan.Fired {
-						p := saveFailure("C07", fc, &Violation{Prop: "C07", Sig: "harness-nondeterminism"})
-						rt.Fatalf("harness: call %d of %d never happened in the faulted re-execution (case %s)", k, n, p)
-					}
-					nontrivial := false
-					if plan.FiredOp >= 0 && plan.FiredOp < len(fc.Ops) {
-						switch fc.Ops[plan.FiredOp].K {
-						case OpSet, OpSetR, OpDel, OpFlush, OpReopen, OpRevert, OpCopyTo:
-							nontrivial = len(fc.Ops)-plan.FiredOp > 3
-						}
-						ev["fault_kind_"+kinds[k-1].String()]++
-						if torn > 0 {
-							ev["fault_torn_write"]++
-						}
-					}
-					h := base ^ (uint64(k)*0x9E3779B97F4A7C15 + uint64(torn)*0xC2B2AE3D27D4EB4F + uint64(abandon)*0x165667B19E3779F9)
-					st.Note(h, ev, nontrivial, func() string { return fc.String() })
-				}
-			}
-		}
+		faultEnumerate(rt, st, "C07", c, RunFault)
 	})
-	st.Extra["histories"] = fmt.Sprint(histories)
-	_ = os.Stdout
+}
+
+// TestC18Fault: visits and iterators whose file fails part way must still let
+// the producer goroutine exit and release the version it pinned.
+func TestC18Fault(t *testing.T) {
+	st := NewStats("C18", "fault phase: histories of visits/iterators (all six APIs) over file-backed stores are re-executed with every single StoreFile call failing once; after the failed call (and after every later op) no goroutine of an iterator is left, nothing hangs, and - no snapshot, visit or iterator being alive - every collection's current version has exactly one reference (the pin of the failed walk was released). Non-trivial = the fault fired inside a visit/iterator.", commonAssumptions)
+	st.Extra["counts_units"] = "evaluations are faulted executions; -rapid.checks counts histories"
+	defer func() {
+		if p := outPath(); p != "" {
+			st.Write(p)
+		}
+	}()
+	gen := GenCase(profIterFault)
+	rapid.Check(t, func(rt *rapid.T) {
+		c := gen.Draw(rt, "case")
+		c.Cfg.Mem = false
+		faultEnumerate(rt, st, "C18", c, RunFault)
+	})
 }
